@@ -186,7 +186,7 @@ def _viol(cls, op, **detail):
 class Run:
     """One execution of a scenario (twin or run under test)."""
 
-    def __init__(self, doc, S, phase, faults, helper, skip_faulty):
+    def __init__(self, doc, S, phase, faults, helper, skip_faulty, sizes=None):
         from parser.Wrappers import parse_belief_base
 
         self.doc = doc
@@ -197,6 +197,7 @@ class Run:
         self.prop = doc["property"]
         self.viol = []
         self.obs = []  # observations per op (compared twin vs. run for C20)
+        self.sizes = dict(sizes or {})  # op index -> size of the file a fault-free save writes (from the twin)
         S.begin_phase(phase, faults)
         S.begin_op(-1)
         self.fs = simfs.activate(int((doc.get("knobs") or {}).get("bufsize", 8192)))
@@ -540,6 +541,7 @@ class Run:
                 o.save_metadata(path, fmt=op.get("fmt", "json"))
             else:
                 o.export_impacts(path, fmt=op.get("fmt", "json"))
+            self.sizes[i] = len(self.fs.files.get(path, b""))
             self._verify_written(i, op, target, path, _describe(o), "in the undisturbed twin")
             return
         inserted = None
@@ -561,6 +563,11 @@ class Run:
                 inserted = ("metadata", "__verif_cycle__")
             self.S.fire("unserialisable_" + what)
         else:
+            if fault["kind"] == "write" and "frac" in fault:
+                # place the torn write inside the serialised form measured by the twin
+                size = int(self.sizes.get(i, 0)) or 1
+                fault = dict(fault, at=min(size - 1, int(float(fault["frac"]) * size)))
+                ob["at"] = fault["at"]
             self.fs.arm(fault)
         before = self._deep_snapshot()
         snap = _describe(o)
@@ -887,7 +894,7 @@ def run_scenario(doc, full_trace=False):
             faults = []
         doc = dict(doc, faults=faults)
         S.fired = {}
-        run = Run(doc, S, "run", faults, helper, skip_faulty=False)
+        run = Run(doc, S, "run", faults, helper, skip_faulty=False, sizes=(twin.sizes if twin is not None else None))
         run.run()
         violations = list(run.viol)
         if prop == "C20" and twin is not None:
@@ -926,7 +933,7 @@ def run_scenario(doc, full_trace=False):
             for op in doc["ops"]:
                 if op["op"] == "savefail":
                     f = op["fault"]
-                    bucket = "" if "at" not in f else str(min(9, int(f["at"]) * 10 // max(1, int(op.get("size_hint", 1000)))))
+                    bucket = str(int(float(f["frac"]) * 10)) if "frac" in f else ("" if "at" not in f else str(min(9, int(f["at"]) * 10 // max(1, int(op.get("size_hint", 1000))))))
                     skeys.add("savefail|%s|%s|%s|%s|%s" % (run.kind, op["target"], f["kind"], f.get("errno", f.get("what")), bucket))
         res = {
             "violations": violations,
@@ -1193,7 +1200,11 @@ def generate(prop, verif_seed, idx, tier="quick", cls=None):
             return {"kind": "open", "errno": g.choice(["EACCES", "ENOENT", "EISDIR", "EROFS"])}
         if k == "close":
             return {"kind": "close", "errno": g.choice(["ENOSPC", "EIO"])}
-        at = g.choice([0, 1, 7, 16, 17, 64, 200, 500, 513, 1000, 3000]) if g.random() < 0.5 else g.randrange(0, 4000)
+        r = g.random()
+        if r < 0.7:
+            # a fraction of the serialised form (its size is measured by the twin run)
+            return {"kind": "write", "errno": g.choice(["ENOSPC", "EIO", "EDQUOT"]), "frac": g.choice([0.0, 0.0, round(g.random(), 3), round(g.random(), 3), 0.999])}
+        at = g.choice([0, 1, 7, 16, 17, 64, 200, 500, 513, 1000, 3000]) if r < 0.85 else g.randrange(0, 4000)
         return {"kind": "write", "errno": g.choice(["ENOSPC", "EIO", "EDQUOT"]), "at": at}
 
     def sf():
@@ -1321,7 +1332,7 @@ SPECS = {
 
 def jobs(prop, verif_seed, n, tier):
     if prop == "C20":
-        ns = SPECS["C20"]["sweeps_" + tier]
+        ns = int(os.environ.get("VERIF_SWEEPS") or SPECS["C20"]["sweeps_" + tier])
         made, idx = 0, 10**6
         while made < ns and idx < 10**6 + 40 * ns + 40:
             doc = generate("C20", verif_seed, idx, tier, cls="failsave")
